@@ -78,3 +78,18 @@ Fixpoint cond_ok (c : cond) (o : obj) : bool :=
 Definition c02_guard (c : cond) (o : obj) : bool :=
   wf_obj o && cond_ok c o
   && negb (multiple_inheritance o) && negb (subclass_bool o) && negb (promotion_negative c o).
+
+(* ---- membership modulo the MinLen/MaxLen annotations (for "never widens") ---- *)
+Definition bmember_s (o : obj) (s : sval) : bool := member_b o (sbase s).
+Definition bmember (o : obj) (v : value) : bool := existsb (bmember_s o) v.
+Definition unannotated (v : value) : bool :=
+  forallb (fun s => match sexts s with [] => true | _ => false end) v.
+
+(* ---- the property at full strength (refuted by the unchanged code, see
+        Proofs/NarrowMain.v and Proofs/NarrowVerdict.v) ---- *)
+Definition narrow_keeps_value_full_statement : Prop :=
+  forall V c pol o, wf_obj o = true -> cond_ok c o = true ->
+    member o V = true -> holds c o = Some pol -> member o (narrow V c pol) = true.
+
+Definition always_true_full_statement : Prop := forall V o,
+  wf_obj o = true -> is_safely_true (boolab_of V) = true -> member o V = true -> truthy o = true.
